@@ -63,7 +63,7 @@ Record session := mkSession {
   s_verified : bool;   (* len(verifiedChains) <> 0 *)
   s_notafter : N;      (* peerCertificates[0].NotAfter *)
   s_certnames : list N;(* names the leaf is valid for *)
-  s_name : N;          (* ghost: the cache key it was stored under *)
+  s_name : N;          (* ghost: the cache key (clientSessionCacheKey of the storing connection) it was stored under *)
   s_ticket : ticket
 }.
 
@@ -99,7 +99,8 @@ Record server := mkServer {
 
 Record conn := mkConn {
   c_spec : spec;
-  c_name : N;        (* Config.ServerName = cache key *)
+  c_sname : N;       (* Config.ServerName as configured (identity of the string; 0 = empty) *)
+  c_addr : N;        (* conn.RemoteAddr().String() (identity of the string, same id space as names) *)
   c_srv : server;
   c_now : N;         (* Config.Time of both ends, seconds *)
   c_omit : bool;     (* Config.OmitEmptyPsk *)
@@ -107,6 +108,16 @@ Record conn := mkConn {
   c_suite : N;       (* the suite the server's selection picks for this hello on its own (input) *)
   c_tlen : N         (* length of the ticket label the server would issue (input) *)
 }.
+
+(* clientSessionCacheKey, handshake_client.go:1332-1340: the ServerName exactly as configured (no
+   normalisation: "a.test." and "a.test", "127.0.0.1" and "127.0.0.2" are different keys) when it is
+   non-empty, else the remote address. Strings are represented by their identities: equal ids = equal strings.
+   The VerifyHostname re-check of loadSession and the full-handshake verification use Config.ServerName; they only
+   run when InsecureSkipVerify is off, and then ServerName is non-empty (otherwise the handshake is refused
+   before anything is built, handshake_client.go:52 / u_handshake_client.go:406 — outside the model's domain),
+   so c_name is the verified name there. *)
+Definition c_name (c : conn) : N := if c_sname c =? 0 then c_addr c else c_sname c.
+Arguments c_name : simpl never.
 
 Definition cache := list (N * session).
 Definition lookup (k : N) (ca : cache) : option session :=
